@@ -685,6 +685,30 @@ func (f *Frame) lookup(x *ssa.Lookup, at string, st *State) *Val {
 	ref, k := f.term(x.X), f.term(x.Index)
 	f.hashableSafe(x, m.Key(), k, at)
 	vcomp, dcomp := vc.S.mapComps(m)
+	if ld, ok := x.X.(*ssa.UnOp); ok {
+		if g, ok := ld.X.(*ssa.Global); ok {
+			_, mutable := vc.G.Mutable[g]
+			_, aliased := vc.G.MapAliased[g]
+			if kvs, ok := vc.G.InitMap[g]; ok && !mutable && !aliased && g.Pkg != nil && vc.P.Module[g.Pkg.Pkg] {
+				// constant table: a map global written only by its package initialiser (a
+				// literal of constant keys and values) and used only for lookups
+				vc.usedAssumptions["global "+shortPkg(g.Pkg.Pkg.Path())+"."+g.Name()+" is a constant table: written only by its package initialiser, its value used only for lookups (checked over the module's SSA)"] = true
+				var hits []string
+				val := vc.zero(m.Elem())
+				for i := len(kvs) - 1; i >= 0; i-- {
+					kt := vc.constTerm(kvs[i][0])
+					hits = append(hits, eq(k, kt))
+					val = ite(eq(k, kt), vc.constTerm(kvs[i][1]), val)
+				}
+				present := vc.define(f.nm(x.Name()+"_ok"), "Bool", or(hits...))
+				v := vc.define(f.nm(x.Name()+"_v"), vcomp.VSort, val)
+				if x.CommaOk {
+					return &Val{Tup: []*Val{{T: v}, {T: present}}}
+				}
+				return &Val{T: v}
+			}
+		}
+	}
 	hv, hd := vc.heapOf(st, vcomp), vc.heapOf(st, dcomp)
 	// a nil map reads as empty
 	present := vc.define(f.nm(x.Name()+"_ok"), "Bool", and(not(eq(ref, "0")), sel(sel(hd, ref), k)))
